@@ -19,3 +19,16 @@ pub open spec fn join(a: Seq<Seq<AttrChar>>, b: Seq<Seq<AttrChar>>) -> Seq<Seq<A
     else if b.len() == 0 { a }
     else { a.drop_last().push(a.last() + b[0]) + b.drop_first() }
 }
+
+
+/// `left.extend(right.drain(from..))` behind a contract (rewrite rule tokens-to-helper): the elements of `right`
+/// from position `from` on are moved to the end of `left`.  ASSUMED; the body is what the code called.
+#[verifier::external_body]
+pub fn verif_extend_drain_from<T>(left: &mut Vec<T>, right: &mut Vec<T>, from: usize)
+    requires from <= old(right)@.len(),
+    ensures
+        final(left)@ == old(left)@ + old(right)@.subrange(from as int, old(right)@.len() as int),
+        final(right)@ == old(right)@.subrange(0, from as int),
+{
+    left.extend(right.drain(from..))
+}
